@@ -18,6 +18,7 @@ type pmRef struct {
 	next    int64
 	d       []int64         // withheld, increasing
 	fwd     map[int64]int64 // source number -> outgoing number (unwrapped), since last reset
+	shift   int64           // accumulated VerifShift of the deltas (mod 2^16)
 }
 
 func (m *pmRef) before(r int64) int64 {
@@ -27,9 +28,10 @@ func (m *pmRef) withheld(r int64) bool {
 	i := sort.Search(len(m.d), func(i int) bool { return m.d[i] >= r })
 	return i < len(m.d) && m.d[i] == r
 }
-func (m *pmRef) out(r int64) int64 { return r - m.before(r) }
+func (m *pmRef) out(r int64) int64 { return r - m.before(r) + m.shift }
 func (m *pmRef) reset(r int64) {
 	m.d = nil
+	m.shift = 0
 	m.fwd = map[int64]int64{}
 	m.next = r + 1
 	m.started = true
@@ -109,6 +111,18 @@ func (h *pmHist) arrive(r int64, pid uint16, wantDrop bool) (bool, uint16, uint1
 	return ok, o, pd
 }
 
+// shift moves every delta of the map (hook VerifShift): states with deltas
+// around the 16-bit wrap, which real histories reach only after tens of
+// thousands of withheld packets.
+func (h *pmHist) shift(dk, dpid uint16) {
+	ok := h.m.VerifShift(dk, dpid)
+	h.t.Op(tr.B(ok), "shift", dk, dpid)
+	if ok {
+		h.ref.shift += int64(dk)
+		h.t.Note("state-shift")
+	}
+}
+
 // dump compares the complete internal state with the L0 model.
 func (h *pmHist) dump() {
 	h.t.Op(h.m.VerifDump(), "dump")
@@ -173,6 +187,20 @@ func runPmap(t *tr.Trace, r *tr.Rand, n int) {
 		for i := 0; i < nops; i++ {
 			if r.Chance(1, 200) {
 				dropOn = !dropOn
+			}
+			if r.Chance(1, 300) && len(h.ref.d) > 0 {
+				d := uint16(h.ref.shift - int64(len(h.ref.d))) // current delta by the reference
+				var dk uint16
+				switch r.Pick(3, 2, 2) {
+				case 0:
+					dk = -d
+				case 1:
+					dk = -d + uint16(r.Range(1, 3)) - 2
+				default:
+					dk = uint16(r.U64())
+				}
+				h.shift(dk, uint16(r.Intn(3)*r.Intn(65536)))
+				h.dump()
 			}
 			if r.Chance(1, 50) {
 				period = r.Range(1, 6)
